@@ -284,6 +284,12 @@ def run(ck, tier):
                                                          'WriteSingleCoilRequest', 'WriteSingleRegisterRequest', 'MaskWriteRegisterRequest', 'WriteFileRecordRequest'),
                   'a malformed frame then writes cells its header does not declare', ('R3',))
     ck.floor('R5', n5 or 0, 7, 'decode layout obligations of the write requests')
+    ck.rule('R14', 'a framer that handles one frame per call keeps nothing behind a frame it skips: otherwise every later request is executed one read late, in the place of another')
+    from .c06 import r14_single_shot_skip_keeps_nothing as _r14
+    from ..framermodel import framer_paths as _fp14
+    for kind in ('tcp', 'rtu', 'ascii', 'binary'):
+        kcls, kf, kfps = _fp14(cx, kind)
+        ck.guard(_r14, ck, cx, kind, kcls, kf, kfps, 'R14', ' — writes are applied late and each response answers the previous request')
     ck.rule('R6', 'no write reaches the datastore before every guard and the range validation of that very range have passed (shared with C05 R2/R3)')
     from ..share import import_findings
     import_findings(ck, 'C05', 'R6', ('R2', 'R3'), 'a request that is not valid changes the datastore')
